@@ -158,6 +158,28 @@ CLAIMED = {
         "Trusted: as C03/C06; both cubes use the same explicit extents covering both commons.",
         "Lean 4 proof (corollary of the refinement theorems) + re-encoding sweep on the real code",
         "DESIGN.md §5 C05"),
+    "C16": (
+        "Lean 4 theorem: tasks whose steps change only their own footprint and depend only on it, with pairwise disjoint "
+        "footprints, leave the same store under ANY schedule that preserves each task's own step order (every interleaving "
+        "and the serial loop); the views of distinct sub-cubes are disjoint cell sets. Partial: that the real tasks are "
+        "disciplined is established by the harness, not by proof: region views checked pairwise with numpy.shares_memory, "
+        "all/seeded task permutations, a deterministic seeded scheduler interleaving workers at source-line granularity, "
+        "real ThreadPools of size 1..16 under a 1e-6 s switch interval, outputs compared bit-for-bit with the serial run.",
+        "Trusted: Lean kernel; the GIL, NumPy's internal locking and the allocator are outside the model; the seeded "
+        "scheduler interleaves at source-line (not single-bytecode) granularity of catii code.",
+        "Lean 4 proof (frame + locality => commutation, induction over schedules, partial) + deterministic seeded scheduling",
+        "DESIGN.md §5 C16"),
+    "C20": (
+        "Lean 4 theorems about the driver fold with a raising callback: serial evaluation stops at the first raising "
+        "consultation, propagates that exception and consulted the callback exactly k+1 times; without a raise exactly once "
+        "per sub-cube with the uninterrupted result; pooled (map semantics): raises iff some consultation raised, one of the "
+        "raised exceptions, all sub-cubes consulted; a following evaluation is a fresh one. Partial: pool/thread lifetime is "
+        "observed, not proved: every cancellation index (serial), subsets of invocations (permuting pool, seeded line-level "
+        "scheduler, real ThreadPool under a hard timeout), exception identity, call counts, bit-for-bit re-use.",
+        "Trusted: Lean kernel; CPython ThreadPool semantics; interrupts are Exception subclasses (a BaseException case is "
+        "checked too).",
+        "Lean 4 proof (fold with raising callback) + fault enumeration at every cancellation point",
+        "DESIGN.md §5 C20"),
 }
 PENDING = {}
 
